@@ -31,15 +31,18 @@ import (
 )
 
 type Input struct {
-	Kind      string     `json:"kind"`
-	TokenFile *hx.B      `json:"token_file"`          // content the token file is given before the first start (nil: absent)
-	TmpFile   *hx.B      `json:"tmp_file,omitempty"`  // content token.tmp is given before the first start (nil: absent)
-	Reachable bool       `json:"reachable"`           // the pre-seeded state is one a kill during a first start (before or after the WithToken repair) can leave
-	SeedKeys  []string   `json:"seed_keys,omitempty"` // namespaces given a pemkey without pemcert (kill between the two Sets)
-	Kill      []string   `json:"kill,omitempty"`      // services of a first start that is killed ...
-	KillMs    int        `json:"kill_ms,omitempty"`   // ... this long after it began
-	Runs      [][]string `json:"runs"`                // service instances configured in each start
-	Overlap   []string   `json:"overlap,omitempty"`   // per start: "" | "overlap" (attempted while the previous start's process is still
+	Kind      string   `json:"kind"`
+	TokenFile *hx.B    `json:"token_file"`          // content the token file is given before the first start (nil: absent)
+	TmpFile   *hx.B    `json:"tmp_file,omitempty"`  // content token.tmp is given before the first start (nil: absent)
+	Reachable bool     `json:"reachable"`           // the pre-seeded state is one a kill during a first start (before or after the WithToken repair) can leave
+	SeedKeys  []string `json:"seed_keys,omitempty"` // namespaces given a pemkey without pemcert (kill between the two Sets)
+	Kill      []string `json:"kill,omitempty"`      // services of a first start that is killed ...
+	KillMs    int      `json:"kill_ms,omitempty"`   // ... this long after it began
+	// ... or, KillItems n > 0: by itself, the moment n of the identity items its instances create are in the store
+	// (crash point at storage granularity: a watcher goroutine inside that child, see watchItems)
+	KillItems int        `json:"kill_items,omitempty"`
+	Runs      [][]string `json:"runs"`              // service instances configured in each start
+	Overlap   []string   `json:"overlap,omitempty"` // per start: "" | "overlap" (attempted while the previous start's process is still
 	// running on the directory) | "flock" (attempted while the harness holds badger's directory lock)
 	Wiring *Wiring `json:"wiring,omitempty"` // capture channels and [[filter]] sections of every start (nil: only the catch-all)
 	// how the data directory is spelled in each start: abs | slash | dotdot | rel | reldot | relup | tilde | tildeslash
@@ -155,6 +158,16 @@ func spawnX(job Job, dir, tag string, killAfter int) (*ChildObs, string, func())
 	}
 	done := make(chan error, 1)
 	go func() { done <- cmd.Wait() }()
+	if job.KillItems > 0 { // ends by its own SIGKILL (or, the count never reached, like any start)
+		select {
+		case <-done:
+		case <-time.After(180 * time.Second):
+			cmd.Process.Kill()
+			<-done
+			return nil, "start (to be killed at a number of stored items) did not end within 180 s", nil
+		}
+		return nil, "", nil
+	}
 	if killAfter >= 0 {
 		t0 := time.Now()
 		for time.Since(t0) < 30*time.Second {
@@ -304,7 +317,13 @@ func runCase(in Input, dir string) (Obs, string) {
 		}
 		ob.Disk0 = d0
 	case in.Kill != nil:
-		spawn(Job{Mode: "run", DataDir: data, Services: in.Kill}, dir, "kill", in.KillMs)
+		if in.KillItems > 0 {
+			if _, crash := spawn(Job{Mode: "run", DataDir: data, Services: in.Kill, KillItems: in.KillItems}, dir, "kill", -1); crash != "" {
+				return ob, crash
+			}
+		} else {
+			spawn(Job{Mode: "run", DataDir: data, Services: in.Kill}, dir, "kill", in.KillMs)
+		}
 		d0, crash := spawn(Job{Mode: "dump", DataDir: data}, dir, "dump", -1)
 		if crash != "" {
 			return ob, "state left by the kill cannot be opened: " + crash
@@ -661,6 +680,9 @@ func dedup(xs []string) []string {
 	return out
 }
 
+// killReps: how often the crash point between the two items of a pair is aimed at per single-service set
+const killReps = 4
+
 func tokenOnly(n int) [][]string {
 	out := make([][]string, n)
 	for i := range out {
@@ -903,6 +925,29 @@ func generate(r *hx.Rand, tier string) []Input {
 	for i := 0; i < ntk; i++ {
 		ins = append(ins, Input{Kind: "kill-token-start", Reachable: true, Kill: []string{}, KillMs: r.Range(0, 12), Runs: tokenOnly(2)})
 	}
+	// (5) crash points at STORAGE granularity: the first start kills itself the moment n of the identity items its
+	// instances create are stored, n = 1..all of them; then undisturbed starts.  The state between the two items of a
+	// key/certificate pair (n odd within a pair) is the one that matters: those n are repeated (the window between two
+	// back-to-back Sets is microseconds wide; a kill that lands late leaves a completed-looking state), each
+	// repetition followed by a different history
+	ksets := [][]string{{"ldap"}, {"ftp"}, {"smtp"}, {"ldap", "ftp", "smtp"}, {"ssh", "agent"}}
+	if big {
+		ksets = append(ksets, []string{"ftp", "ldap"}, []string{"ssh", "smtp"}, []string{"ldap", "ldap2"}, []string{"ssh", "ssh-auth", "agent"}, all5)
+	}
+	for _, set := range ksets {
+		with := func(more ...string) []string { return dedup(append(append([]string{}, set...), more...)) }
+		follow := [][][]string{{set, set}, {set, set, all5}, {set, with("ssh"), set}, {set, all5}}
+		ni := len(itemsOf(set))
+		for n := 1; n <= ni; n++ {
+			reps := 1
+			if n < ni && len(set) == 1 {
+				reps = killReps
+			}
+			for k := 0; k < reps; k++ {
+				ins = append(ins, Input{Kind: "kill-items", Reachable: true, Kill: set, KillItems: n, Runs: follow[(k+n-1)%len(follow)]})
+			}
+		}
+	}
 	return ins
 }
 
@@ -993,6 +1038,31 @@ func main() {
 				dist["kill-left-token:complete"]++
 			default:
 				dist[fmt.Sprintf("kill-left-token:%d-bytes", len(*ob.Disk0.TokenFile))]++
+			}
+		}
+		if ob.Disk0 != nil && in.KillItems > 0 {
+			has := func(name string) bool { return ob.Disk0.KV[name].Present }
+			m := 0
+			for _, k := range itemsOf(in.Kill) {
+				if has(kvItems[k].Name) {
+					m++
+				}
+			}
+			switch {
+			case m == in.KillItems:
+				dist["killitems:exact"]++
+			case m > in.KillItems:
+				dist["killitems:missed-window"]++ // landed late: more items stored than aimed at
+			default:
+				dist["killitems:early"]++ // fewer than aimed at (the start ended first, or a record was seen growing in two steps)
+			}
+			for _, ns := range []string{"ftp", "smtp", "ldap"} {
+				switch k, c := has(ns+".pemkey"), has(ns+".pemcert"); {
+				case k && !c:
+					dist["killitems:"+ns+":key-only"]++
+				case c && !k:
+					dist["killitems:"+ns+":cert-only"]++
+				}
 			}
 		}
 		cases = append(cases, hx.Case{ID: i, Kind: in.Kind, Input: in, Obs: ob, Crash: crash, Coq: coqCase(i, in, ob)})
